@@ -220,31 +220,8 @@ func r16cap(c *core.Ctx) {
 		id    int64
 	}{"SetEA0_5G": {"p0.CipheringAlg", 0}, "SetEA1_128_5G": {"p0.CipheringAlg", 1}, "SetEA2_128_5G": {"p0.CipheringAlg", 2}, "SetEA3_128_5G": {"p0.CipheringAlg", 3},
 		"SetIA0_5G": {"p0.IntegrityAlg", 0}, "SetIA1_128_5G": {"p0.IntegrityAlg", 1}, "SetIA2_128_5G": {"p0.IntegrityAlg", 2}, "SetIA3_128_5G": {"p0.IntegrityAlg", 3}}
-	seen := map[string]bool{}
-	for _, ci := range core.Calls(fn) {
-		n := core.CalleeName(ci.Common())
-		if !strings.HasPrefix(n, pNasT+".UESecurityCapability.Set") {
-			continue
-		}
-		short := n[strings.LastIndex(n, ".")+1:]
-		w, known := want[short]
-		key := "tglib.GetUESecurityCapability:" + short
-		if !known {
-			c.Fail(R, key, ci.Pos(), "unexpected capability setter %s", short)
-			continue
-		}
-		seen[short] = true
-		c.Sites(1)
-		ids := guardingEq(p, ci.Block(), w.field)
-		v, okV := core.ConstInt(ci.Common().Args[1])
-		c.Check(len(ids) == 1 && ids[0] == w.id && okV && v == 1, R, key, ci.Pos(), fmt.Sprintf("%s == %d ⇒ %s(1)", w.field, w.id, short),
-			"%s(…) must be called with 1 exactly when %s == %d; it is called under %v with value %d", short, w.field, w.id, ids, v)
-	}
-	for _, must := range []string{"SetEA0_5G", "SetEA1_128_5G", "SetEA2_128_5G", "SetIA1_128_5G", "SetIA2_128_5G"} {
-		if !seen[must] {
-			c.Fail(R, "tglib.GetUESecurityCapability:"+must, fn.Pos(), "the capability for this algorithm is never advertised")
-		}
-	}
+	_, _ = p, want
+	r16capX(c, R)
 	// the capability buffer starts as two zero octets, IEI is the Registration Request's
 	iei := mustConst(c, pNasM, "RegistrationRequestUESecurityCapabilityType")
 	c.Check(iei == 0x2e, R, "nasMessage.RegistrationRequestUESecurityCapabilityType", token.NoPos, "=0x2E", "UE security capability IEI must be 0x2E (TS 24.501 8.2.6), is %#x", iei)
